@@ -111,7 +111,7 @@ return (got, (fields, False))
                meta={'function': 'csv_utils.%s -> smart_split' % q, 'bounds': 'every field list with lengths %s%s' % (lens, ' (no CR/LF)' if policy == 'quoted' else '')})
 
 
-def _pipe_obl(dlm, policy, shape, linesep, timeout, expect='hold', finding=None, extra_pre=None, tag=''):
+def _pipe_obl(dlm, policy, shape, linesep, timeout, expect='hold', finding=None, extra_pre=None, tag='', enc=None):
     """shape: list of rows, each a tuple of field lengths."""
     params = []
     pre = []
@@ -129,20 +129,23 @@ def _pipe_obl(dlm, policy, shape, linesep, timeout, expect='hold', finding=None,
         pre = ['dummy == 0']
     texpr = '[' + ', '.join(rows) + ']'
     pre.append('representable(%s, DLM, POLICY)' % texpr)
+    if enc == 'utf-8' and shape and shape[0] and shape[0][0] > 0:
+        pre.append('f00_0 != 0xFEFF')       # a table whose very first character is a BOM is not representable (the property says so)
     pre += (extra_pre or [])
     body = indent('''
 T = %s
 w = csvh.write_all(T, DLM, POLICY, LINESEP)
 if w[0] != 'ok':
     return (w, 'writer must accept a representable table')
-r = csvh.read_all([w[1]], None, DLM, POLICY)
+r = csvh.read_all([w[1]], ENC, DLM, POLICY)
 want = norm_rfc(T) if POLICY == 'quoted_rfc' else T
 fi = csvref.fields_info_warning(T)
 ew = [] if fi is None else ['Number of fields in "input" table is not consistent: e.g. record %%d -> %%d fields, record %%d -> %%d fields' %% (fi[1], fi[0], fi[3], fi[2])]
 return ((w[2], r), ([], ('ok', want, None, ew)))
 ''' % texpr)
-    imports = 'from vf import csvh\nfrom vf.refmodel import csvref\nDLM = %r\nPOLICY = %r\nLINESEP = %r\n' % (dlm, policy, linesep)
+    imports = 'from vf import csvh\nfrom vf.refmodel import csvref\nDLM = %r\nPOLICY = %r\nLINESEP = %r\nENC = %r\n' % (dlm, policy, linesep, enc)
     src = harness(imports, params, pre, body, extra_defs=PRED_SRC)
+    tag = tag + (',enc=' + enc if enc else '')
     name = 'pipe[%s,%s,%s,shape=%s]%s' % (policy, DN[dlm], {'\n': 'LF', '\r\n': 'CRLF', '\r': 'CR'}[linesep], '/'.join('+'.join(map(str, r)) for r in shape) or 'empty', tag)
     return Obl(name, src, timeout=timeout, expect=expect, finding=finding,
                meta={'function': 'rbql_csv.CSVWriter -> rbql_csv.CSVRecordIterator', 'bounds': 'every representable table with field lengths %s' % (shape,)})
@@ -260,6 +263,9 @@ def obligations(tier, seed):
                     if total == 4 and (si + ci + seed) % 3 != 0:
                         continue
                     obs.append(_pipe_obl(dlm, policy, shape, seps[(ci + si + seed) % 3], 1500))
+    # B2. the reader's BOM handling is active (utf-8): only a BOM at the very start of the text is special
+    for dlm, policy, shape in ((',', 'quoted', [(1,), (1,)]), (',', 'quoted', [(1, 1), (1, 0)]), (';', 'quoted_rfc', [(3,)]), ('\t', 'simple', [(1,), (2,)]), (',', 'quoted_rfc', [(1,), (2,)])):
+        obs.append(_pipe_obl(dlm, policy, shape, '\n', 300 if quick else 1200, enc='utf-8'))
     # C. lossy output is never silent
     lsh = [[(1, 1)], [(2,), (0, 1)]] if quick else [[(1, 1)], [(2,), (0, 1)], [(2, 2)], [(1, 1), (1, 1)], [(3,)]]
     for dlm, policy in ((',', 'simple'), (' ', 'whitespace'), ('\t', 'simple')):
